@@ -25,6 +25,7 @@ func checkC16(c *Ctx) {
 	c.Rule("C16/R6", "level-by-level header walk: no slice in the renderers is truncated and refilled in place while another loop-carried variable still holds the same backing array and is being read (the next level must be built in fresh storage)")
 	c.Rule("C16/R8", "digit order: wherever a renderer writes a number digit by digit (footnote marks, spreadsheet column names), digits peeled off least-significant first are stored from the end of the buffer backwards, or the buffer is reversed afterwards")
 	c.Rule("C16/R9", "CSV cell references: a closure of ToCSV that derives a cell reference from the length of the row under assembly is called, inside the column loops, only after the padding closure on every path of the iteration; and no value is appended to the row after a conditionally appended one of the same iteration without a padding call in between")
+	c.Rule("C16/R10", "rows and records stay in step: in the CSV renderers every csv.Writer.Write is followed on every path by an increment of the shared row counter")
 	c.Rule("C16/R7", "shrink marks stay inside the table built so far: every column index passed to SetShrink is below the layout's current column on the path that reaches the call")
 	p := mustLoad(c, loadOpts{}, "./"+ttabRel, "./"+btabRel, "./benchproc", "./benchmath", "./benchfmt", "./benchunit")
 	c16Margins(c, p)
@@ -36,6 +37,81 @@ func checkC16(c *Ctx) {
 	c16Shrink(c, p)
 	c16Digits(c, p)
 	c16CSVRefs(c, p)
+	c16CSVRows(c, p)
+}
+
+// c16CSVRows (C16/R10): warnings name spreadsheet rows, so the row counter and the records written must stay in step: in
+// the CSV renderers every csv.Writer.Write is followed, on every path to the function's return, by an increment of an
+// integer counter the function shares with its caller (a captured variable or named result).
+func c16CSVRows(c *Ctx, p *Prog) {
+	const R = "C16/R10"
+	n := 0
+	for _, fn := range p.Funcs(btabRel) {
+		type at struct {
+			b   *ssa.BasicBlock
+			idx int
+		}
+		var writes []at
+		incr := map[*ssa.BasicBlock][]int{}
+		for _, b := range fn.Blocks {
+			for i, in := range b.Instrs {
+				if call, ok := in.(*ssa.Call); ok && objIs(calleeObj(&call.Call), "encoding/csv", "Writer", "Write") {
+					writes = append(writes, at{b, i})
+				}
+				if st, ok := in.(*ssa.Store); ok && isInteger(st.Val.Type()) {
+					if bo, ok := st.Val.(*ssa.BinOp); ok && bo.Op == token.ADD {
+						if k, ok := constInt(bo.Y); ok && k == 1 {
+							if ld, ok := bo.X.(*ssa.UnOp); ok && ld.X == st.Addr {
+								if _, isFV := st.Addr.(*ssa.FreeVar); isFV {
+									incr[b] = append(incr[b], i)
+								}
+								if al, isAl := st.Addr.(*ssa.Alloc); isAl && al.Comment != "" {
+									incr[b] = append(incr[b], i)
+								}
+							}
+						}
+					}
+				}
+			}
+		}
+		for wi, w := range writes {
+			n++
+			counted := func(b *ssa.BasicBlock, from int) bool {
+				for _, i := range incr[b] {
+					if i > from {
+						return true
+					}
+				}
+				return false
+			}
+			uncounted := false
+			if !counted(w.b, w.idx) {
+				seen := map[*ssa.BasicBlock]bool{}
+				var work []*ssa.BasicBlock
+				if _, isRet := w.b.Instrs[len(w.b.Instrs)-1].(*ssa.Return); isRet {
+					uncounted = true
+				}
+				work = append(work, w.b.Succs...)
+				for len(work) > 0 && !uncounted {
+					b := work[len(work)-1]
+					work = work[:len(work)-1]
+					if seen[b] {
+						continue
+					}
+					seen[b] = true
+					if counted(b, -1) {
+						continue
+					}
+					if _, isRet := b.Instrs[len(b.Instrs)-1].(*ssa.Return); isRet {
+						uncounted = true
+					}
+					work = append(work, b.Succs...)
+				}
+			}
+			c.Check(!uncounted, R, fmt.Sprintf("%s:record-counted#%d", fnName(fn), wi+1), p.pos(w.b.Instrs[w.idx].Pos()), "the record written is counted on every path", "a CSV record is written without the row counter being advanced on some path (e.g. only for non-empty lines): the blank line between tables is a line of the file like any other, so every cell reference in a warning for a later table is one row too small per separator")
+		}
+	}
+	c.Floor(R, "CSV records written by the renderers", n, 2)
 }
 
 // c16CSVRefs (C16/R9): the CSV renderer names the spreadsheet cell a warning belongs to by the current length of the row
